@@ -17,7 +17,7 @@ def main(tier):
     # model those theorems talk about
     c.phase_proofs("ParserShape")
     from checks import layerc
-    layerc.blocks(c, tier, 0.12 if tier == "quick" else 0.1)   # the whole-parser tie below runs the block phase too
+    layerc.blocks(c, tier, 0.12 if tier == "quick" else 0.1, proofs=(tier != "quick"))   # the whole-parser tie below runs the block phase too
     # Parse_C10 / Parse_html_total (Props/Parse.v): the events of the HTML model are well nested on the tree that ONE Coq
     # function of the input bytes returns (Model/Parse.v parse_document_model), tied end to end to parse_document here
     layerc.whole(c, tier, 0.12 if tier == "quick" else 0.15)
